@@ -248,9 +248,11 @@ def run_check(pid, tier, seed):
             say(pid, 'Verus did not complete: %s' % msg)
             for r in tool[:5]:
                 say(pid, '  ' + r['rendered'].split('\n')[0] + ' @ %s:%s' % (r.get('file'), r.get('line')))
-            if tool and ('not supported' in msg or 'not yet support' in msg or 'unsupported' in msg.lower()):
-                # the changed code is outside the verifier's subset: bounded stand-in (native oracle search over the stated lattices),
-                # labelled bounded; it can report a violation only with a concrete, replayable failing input
+            if tool:
+                # the changed code is outside the verifier's subset ("not supported"), or the spliced contracts / hints no longer
+                # compile against it (cargo check of the tree itself passed): it cannot be decided deductively.  Bounded stand-in
+                # (native oracle search over the stated lattices), labelled bounded; it can report a violation only with a
+                # concrete, replayable failing input
                 rp = concretise.bounded_standin(pid, msg, tool, REPO, scratch, say)
                 if rp:
                     print('VIOLATION property=%s replay=%s' % (pid, rp), flush=True)
@@ -447,7 +449,13 @@ def run_check(pid, tier, seed):
 
     rc = 0
     if und and not violation:
-        say(pid, 'UNDECIDED (exit 2): resource limit reached in %s' % sorted({str(u.get('fn')) for u in und}))
+        say(pid, 'resource limit reached in %s' % sorted({str(u.get('fn')) for u in und}))
+        # undecided by the verifier: bounded stand-in; only a concrete, replayable failing input is a violation
+        rp = concretise.bounded_standin(pid, 'resource limit reached', und, REPO, scratch, say)
+        if rp:
+            print('VIOLATION property=%s replay=%s' % (pid, rp), flush=True)
+            return 1
+        say(pid, 'UNDECIDED (exit 2)')
         rc = 2
     if violation:
         rp = concretise.make_replay(pid, mine, kani_fail, meta, REPO, scratch, say, tier, standin_hit)
